@@ -62,6 +62,9 @@ THEOREMS = [
     "Cotengra.C13.expr_cache_transparent",
     "Cotengra.C13.path_cache_transparent",
     "Cotengra.C13.shareOK_sound",
+    "Cotengra.C13.shareOK_sound_with_constants",
+    "Cotengra.C13.constants_path_not_cached",
+    "Cotengra.C13.size_dict_fully_keyed",
     "Cotengra.C13.lru_transparent",
     "Cotengra.C13.hash_collision",
     "Cotengra.C13.hash_collision_counterexample",
@@ -110,7 +113,17 @@ def _key_flow(fn):
         flows |= dep.get(n, set())
     hashed = any(isinstance(c, ast.Call) and isinstance(c.func, ast.Name) and c.func.id == "hash"
                  for c in ast.walk(ret))
-    return params, [p for p in params if p in flows], hashed
+    # how does the size dict enter the key: through .items() (labels *and* sizes), or only
+    # through .values() / .keys() / iteration (one half of the mapping)?
+    exprs = [ret] + [st.value for st in fn.body if isinstance(st, ast.Assign)]
+    proj = set()
+    for e in exprs:
+        attr_parents = {id(a.value): a.attr for a in ast.walk(e) if isinstance(a, ast.Attribute)}
+        for n in ast.walk(e):
+            if isinstance(n, ast.Name) and n.id == "size_dict":
+                proj.add(attr_parents.get(id(n), "bare"))
+    full = ("items" in proj) or ({"keys", "values"} <= proj)
+    return params, [p for p in params if p in flows], hashed, full
 
 
 def _call_args(call, params):
@@ -127,9 +140,9 @@ def extract_facts(repo=None):
     tree = ast.parse(open(os.path.join(repo, "cotengra", "interface.py")).read())
     fns = {n.name: n for n in tree.body if isinstance(n, ast.FunctionDef)}
     hc = fns["hash_contraction"]
-    params, flowing, hashed = _key_flow(hc)
+    params, flowing, hashed, full = _key_flow(hc)
     kwname = hc.args.kwarg.arg if hc.args.kwarg else None
-    out = {"keyIsHashed": hashed}
+    out = {"keyIsHashed": hashed, "sizeDictFullyKeyed": full}
     for cache_fn, build_name, tag in (("array_contract_expression", "_build_expression", "expr"),
                                       ("array_contract_path", "find_path", "path")):
         keyvars, buildvars = None, None
@@ -149,6 +162,22 @@ def extract_facts(repo=None):
             raise RuntimeError("cannot find the key / build call in " + cache_fn)
         out[tag + "KeySource"] = keyvars
         out[tag + "BuildArgs"] = buildvars
+    # the constants path: the folded function captures the constant *arrays* by reference; does
+    # the function that builds it put anything into a module-level cache?
+    cf = fns.get("_array_contract_expression_with_constants")
+    stores = False
+    if cf is not None:
+        modnames = {t.id for n in tree.body if isinstance(n, (ast.Assign, ast.AnnAssign))
+                    for t in ast.walk(n) if isinstance(t, ast.Name) and isinstance(t.ctx, ast.Store)}
+        for n in ast.walk(cf):
+            if isinstance(n, ast.Subscript) and isinstance(n.ctx, ast.Store) and \
+                    isinstance(n.value, ast.Name) and n.value.id in modnames:
+                stores = True
+            if isinstance(n, ast.Call) and isinstance(n.func, ast.Attribute) and \
+                    n.func.attr in ("setdefault", "__setitem__", "update") and \
+                    isinstance(n.func.value, ast.Name) and n.func.value.id in modnames:
+                stores = True
+    out["constPathStoresInCache"] = stores
     return out
 
 
@@ -167,7 +196,11 @@ def gen_facts():
         f"def exprBuildArgs : List String := {_lean_list(f['exprBuildArgs'])}\n"
         f"def pathKeySource : List String := {_lean_list(f['pathKeySource'])}\n"
         f"def pathBuildArgs : List String := {_lean_list(f['pathBuildArgs'])}\n"
-        f"def keyIsHashed : Bool := {'true' if f['keyIsHashed'] else 'false'}\n\n"
+        f"def keyIsHashed : Bool := {'true' if f['keyIsHashed'] else 'false'}\n"
+        "/-- does the size dict enter the key with labels *and* sizes (`.items()`)? -/\n"
+        f"def sizeDictFullyKeyed : Bool := {'true' if f['sizeDictFullyKeyed'] else 'false'}\n"
+        "/-- does `_array_contract_expression_with_constants` store what it builds in a module-level dict? -/\n"
+        f"def constPathStoresInCache : Bool := {'true' if f['constPathStoresInCache'] else 'false'}\n\n"
         "end Cotengra.Generated.C13\n")
     return {"CotengraVerif/Generated/FactsC13.lean": src}
 
@@ -196,7 +229,10 @@ def _base(rng):
     return net
 
 
-def gen_pool(rng):
+THEMES = ("general", "general", "sizes", "constants", "arrays")
+
+
+def gen_pool(rng, theme="general"):
     net = _base(rng)
     kind = rng.choice(["str", "str", "int", "negint", "negint", "tuple"])
     canonicalize = rng.random() < (0.5 if kind != "negint" else 0.25)
@@ -206,6 +242,12 @@ def gen_pool(rng):
     lin = tuple(tuple(int(i) for i in p) for p in ssa_to_linear(path, n)) if n > 1 else ()
     base = {"net": net.json(), "labels": kind, "canonicalize": canonicalize, "optimize": "greedy",
             "kwargs": {}, "as_list": False}
+    if theme == "sizes":
+        # sizes handed over as an explicit dict (insertion order matters for the key)
+        order = sorted(net.sizes)
+        rng.shuffle(order)
+        base["size_mode"] = "dict"
+        base["size_order"] = order
     pool = [("base", base)]
 
     def add(tag, **chg):
@@ -252,6 +294,30 @@ def gen_pool(rng):
     if len(t[i]) >= 2:
         t[i] = t[i][::-1]
         add("term-order", net=gen.Net(t, net.output, net.sizes).json())
+    # --- explicit size dicts: same mapping in another key order; same *value sequence* with the
+    #     sizes re-assigned to other labels (a different contraction)
+    order = base.get("size_order") or sorted(net.sizes)
+    o2 = order[:]
+    rng.shuffle(o2)
+    add("sizes-dict-key-order", size_mode="dict", size_order=o2)
+    if "size_mode" not in base:
+        add("sizes-as-dict", size_mode="dict", size_order=order)
+    diff = [(a, b) for a in order for b in order if a < b and net.sizes[a] != net.sizes[b]]
+    if diff:
+        a, b = rng.choice(diff)
+        sw = {a: b, b: a}
+        sz2 = dict(net.sizes)
+        sz2[a], sz2[b] = net.sizes[b], net.sizes[a]
+        add("sizes-reassigned-same-value-sequence", size_mode="dict",
+            size_order=[sw.get(x, x) for x in order], net=gen.Net(net.inputs, net.output, sz2).json())
+    # --- constants: positions and values
+    pos = sorted(rng.sample(range(n), rng.choice([1, 1, 2]) if n > 2 else 1))
+    cs = rng.randrange(1 << 30)
+    add("constants", constants={"pos": pos, "cseed": cs})
+    add("constants-other-values", constants={"pos": pos, "cseed": cs + 17})
+    pos2 = sorted(rng.sample(range(n), 1))
+    if pos2 != pos:
+        add("constants-other-positions", constants={"pos": pos2, "cseed": cs})
     return pool
 
 
@@ -259,15 +325,30 @@ APIS = ("expression", "expression", "contract", "path", "einsum", "einsum_expres
 
 
 def gen_history(rng):
-    pool = gen_pool(rng)
+    theme = rng.choice(THEMES)
+    pool = gen_pool(rng, theme)
+    tags = [k for k, _ in pool]
     hot = [0] + rng.sample(range(1, len(pool)), min(len(pool) - 1, rng.choice([1, 2, 3])))
+    apis = APIS
+    if theme == "sizes":
+        hot = [0] + [i for i, k in enumerate(tags) if k.startswith("sizes-")]
+        apis = ("path", "path", "expression")
+    elif theme == "constants":
+        hot = [i for i, k in enumerate(tags) if k.startswith("constants")] + [0]
+        apis = ("expression", "einsum_expression")
     calls = []
-    api0 = rng.choice(APIS)
+    api0 = rng.choice(apis)
     for _ in range(rng.randint(3, 8)):
         qi = rng.choice(hot) if rng.random() < 0.85 else rng.randrange(len(pool))
-        api = api0 if rng.random() < 0.7 else rng.choice(APIS)
-        calls.append({"q": qi, "api": api, "cache": rng.random() < 0.85, "seed": rng.randrange(1 << 30)})
-    return {"pool": [[k, v] for k, v in pool], "calls": calls}
+        api = api0 if rng.random() < 0.7 else rng.choice(apis)
+        atype = "numpy"
+        if theme == "arrays":
+            atype = rng.choice(["numpy", "lazy", "lazy", "list"])
+        elif rng.random() < 0.1:
+            atype = rng.choice(["lazy", "list"])
+        calls.append({"q": qi, "api": api, "cache": rng.random() < 0.85, "seed": rng.randrange(1 << 30),
+                      "atype": atype, "atype2": rng.choice(["numpy", "numpy", "lazy"]) if theme == "arrays" else atype})
+    return {"pool": [[k, v] for k, v in pool], "calls": calls, "theme": theme}
 
 
 # ---------------------------------------------------------------------------------------------
@@ -291,9 +372,36 @@ def _materialise(spec):
     return net, ins, out, shapes, opt
 
 
+def _size_args(spec, net):
+    """how the sizes are handed over: `shapes=` (default) or an explicit `size_dict=` whose
+    insertion order is part of the request"""
+    if spec.get("size_mode") == "dict":
+        kind = spec["labels"]
+        order = spec.get("size_order") or sorted(net.sizes)
+        return {"size_dict": {_lab(kind, i): net.sizes[i] for i in order}}
+    return {"shapes": tuple(tuple(net.sizes[i] for i in t) for t in net.inputs)}
+
+
 def _arrays(net, seed):
     r = np.random.default_rng(seed)
     return [r.integers(-3, 4, size=tuple(net.sizes[i] for i in t)) for t in net.inputs]
+
+
+def _as_type(arrays, atype):
+    if atype == "lazy":
+        import autoray as ar
+        return [ar.lazy.array(a) for a in arrays]
+    if atype == "list":
+        return [a.tolist() for a in arrays]
+    return arrays
+
+
+def _const_arrays(spec, net):
+    c = spec.get("constants")
+    if not c:
+        return {}
+    full = _arrays(net, c["cseed"])
+    return {i: full[i] for i in c["pos"]}
 
 
 def _canon(x):
@@ -329,7 +437,10 @@ def request_fields(spec, api):
         ins = tuple(tuple(gen.sym(i) for i in t) for t in net.inputs)
         out = tuple(gen.sym(i) for i in net.output)
         canon = True
-    i2, o2, sd, op2 = normalize_input(ins, out, None, shapes, opt, canon)
+    sa = _size_args(spec, net)
+    if api not in ("path", "expression"):
+        sa = {"shapes": shapes}
+    i2, o2, sd, op2 = normalize_input(ins, out, sa.get("size_dict"), sa.get("shapes"), opt, canon)
     if isinstance(op2, list):
         op2 = tuple(op2)
     kw = dict(spec["kwargs"])
@@ -337,15 +448,32 @@ def request_fields(spec, api):
         kw = {}
     elif api in ("contract", "einsum"):
         kw.setdefault("strip_exponent", False)  # array_contract always passes it explicitly
+    consts = "none"
+    if api in ("expression", "einsum_expression") and spec.get("constants"):
+        # positions *and values* of the constant arrays baked into the returned function
+        consts = _canon((tuple(spec["constants"]["pos"]), spec["constants"]["cseed"]))
     return {"inputs": _canon(i2), "output": _canon(o2), "size_dict": _canon(sd), "optimize": _canon(op2),
-            "kwargs": _canon(frozenset(kw.items()))}
+            "kwargs": _canon(frozenset(kw.items())), "constants": consts}
+
+
+def _resolve(x):
+    return x.compute() if hasattr(x, "compute") else x
+
+
+def _rtype(res):
+    """type of what the call handed back (cached and uncached calls must agree on it)"""
+    if isinstance(res, tuple):
+        return "(" + ",".join(_rtype(x) for x in res) + ")"
+    if isinstance(res, (float, int)) and not isinstance(res, bool):
+        return "number"
+    return type(res).__name__
 
 
 def _value(res, strip):
     if strip:
         m, e = res
-        return ("float", (np.asarray(m, dtype=float) * 10.0 ** float(e)).tolist())
-    a = np.asarray(res)
+        return ("float", (np.asarray(_resolve(m), dtype=float) * 10.0 ** float(_resolve(e))).tolist())
+    a = np.asarray(_resolve(res))
     if a.dtype.kind in "iu":
         return ("int", a.tolist())
     return ("float", a.astype(float).tolist())
@@ -355,41 +483,58 @@ def run_call(spec, call, cached):
     """execute one call; returns an observation dict"""
     import cotengra as ctg
     net, ins, out, shapes, opt = _materialise(spec)
-    arrays = _arrays(net, call["seed"])
+    atype, atype2 = call.get("atype", "numpy"), call.get("atype2", call.get("atype", "numpy"))
+    raw = _arrays(net, call["seed"])
+    raw2 = _arrays(net, call["seed"] + 1)
     kw = dict(spec["kwargs"])
     strip = bool(kw.get("strip_exponent"))
     use = bool(call["cache"]) and cached
     api = call["api"]
     canon = spec["canonicalize"]
+    consts = _const_arrays(spec, net) if api in ("expression", "einsum_expression") else {}
+    if consts:
+        atype = atype2 = "numpy"   # constant folding traces with autoray's own lazy arrays
+    free = [i for i in range(len(raw)) if i not in consts]
+    arrays = _as_type(raw, atype)
+    arrays2 = _as_type(raw2, atype2)
     obs = {"api": api}
+
+    def ev(e):
+        r = e(*[arrays[i] for i in free])
+        obs["value"], obs["rtype"] = _value(r, strip), _rtype(r)
+        r2 = e(*[arrays2[i] for i in free])     # the same expression on new arrays (of another type)
+        obs["value2"], obs["rtype2"] = _value(r2, strip), _rtype(r2)
+
     try:
         if api == "path":
-            p = ctg.array_contract_path(ins, out, shapes=shapes, optimize=opt, canonicalize=canon, cache=use)
+            p = ctg.array_contract_path(ins, out, optimize=opt, canonicalize=canon, cache=use,
+                                        **_size_args(spec, net))
             obs["id"] = id(p)
             obs["keep"] = p
             obs["path"] = [list(map(int, s)) for s in p]
         elif api == "expression":
-            e = ctg.array_contract_expression(ins, out, shapes=shapes, optimize=opt, canonicalize=canon,
-                                              cache=use, **kw)
+            ckw = {"constants": consts} if consts else {}
+            e = ctg.array_contract_expression(ins, out, optimize=opt, canonicalize=canon,
+                                              cache=use, **_size_args(spec, net), **ckw, **kw)
             obs["id"] = id(e)
             obs["keep"] = e
-            obs["value"] = _value(e(*arrays), strip)
-            arrays2 = _arrays(net, call["seed"] + 1)
-            obs["value2"] = _value(e(*arrays2), strip)
+            ev(e)
         elif api == "contract":
-            obs["value"] = _value(ctg.array_contract(arrays, ins, out, optimize=opt, cache_expression=use,
-                                                     canonicalize=canon, **kw), strip)
+            r = ctg.array_contract(arrays, ins, out, optimize=opt, cache_expression=use,
+                                   canonicalize=canon, **kw)
+            obs["value"], obs["rtype"] = _value(r, strip), _rtype(r)
         else:
             eq = net.eq()
             if api == "einsum":
-                obs["value"] = _value(ctg.einsum(eq, *arrays, optimize=opt, cache_expression=use, **kw), strip)
+                r = ctg.einsum(eq, *arrays, optimize=opt, cache_expression=use, **kw)
+                obs["value"], obs["rtype"] = _value(r, strip), _rtype(r)
             else:
-                e = ctg.einsum_expression(eq, *shapes, optimize=opt, cache=use, **kw)
+                ops = [consts[i] if i in consts else shapes[i] for i in range(len(shapes))]
+                ckw = {"constants": sorted(consts)} if consts else {}
+                e = ctg.einsum_expression(eq, *ops, optimize=opt, cache=use, **ckw, **kw)
                 obs["id"] = id(e)
                 obs["keep"] = e
-                obs["value"] = _value(e(*arrays), strip)
-                arrays2 = _arrays(net, call["seed"] + 1)
-                obs["value2"] = _value(e(*arrays2), strip)
+                ev(e)
         obs["outcome"] = "ok"
     except Exception as e:  # noqa: BLE001
         obs["outcome"] = "raised:" + type(e).__name__
@@ -431,6 +576,9 @@ U.JOBS["c13twin"] = job_twin
 def reference(spec, call, second=False):
     net = gen.Net.from_json(spec["net"])
     arrays = _arrays(net, call["seed"] + (1 if second else 0))
+    if call["api"] in ("expression", "einsum_expression"):
+        for i, a in _const_arrays(spec, net).items():
+            arrays[i] = a
     shape, res = refimpl.dense_einsum(net.inputs, net.output, net.sizes, arrays)
 
     def py(x):
@@ -478,6 +626,7 @@ def check_history(ctx, drv, hist):
     """returns list of violations found (already reported)"""
     import warnings
     pool = hist["pool"]
+    ctx.count("theme:" + hist.get("theme", "general"))
     warnings.simplefilter("ignore")
     _clear_all_caches()
     obs = [run_call(pool[c["q"]][1], c, cached=True) for c in hist["calls"]]
@@ -499,6 +648,11 @@ def check_history(ctx, drv, hist):
         ctx.count("cache:%s" % call["cache"])
         ctx.count("labels:" + spec["labels"])
         ctx.count("outcome:" + o["outcome"])
+        ctx.count("arrays:" + call.get("atype", "numpy"))
+        if spec.get("size_mode") == "dict" and call["api"] in ("path", "expression"):
+            ctx.count("sizes_given_as_explicit_dict")
+        if spec.get("constants") and call["api"] in ("expression", "einsum_expression"):
+            ctx.count("call_with_constants")
         near = False
         for j in range(i):
             if hist["calls"][j]["cache"] and fields[i] and fields[j] and \
@@ -539,6 +693,13 @@ def check_history(ctx, drv, hist):
                 bad.append((i, site, "expression-reuse-wrong-value",
                             {"got": o["value2"][1], "uncached": t["value2"][1],
                              "want": reference(spec, call, second=True)}, {"component": comp}))
+                continue
+            if o.get("rtype") != t.get("rtype") or o.get("rtype2") != t.get("rtype2"):
+                # same numbers, but handed back as another kind of object than without the cache
+                bad.append((i, site, "wrong-result-type",
+                            {"cached": [o.get("rtype"), o.get("rtype2")],
+                             "uncached": [t.get("rtype"), t.get("rtype2")],
+                             "array_types": [call.get("atype"), call.get("atype2")]}, {"component": comp}))
                 continue
         if "path" in o:
             n = len(spec["net"]["inputs"])
@@ -736,7 +897,7 @@ def run(ctx, drv):
     except Exception as e:  # noqa: BLE001
         ctx.notes["facts_extracted"] = "error: %r" % (e,)
     _corpus(ctx, drv)
-    n = 1500 if ctx.tier == "quick" else 40000
+    n = 1300 if ctx.tier == "quick" else 40000
     for _ in range(n):
         if ctx.time_left() < 15:
             break
